@@ -24,7 +24,8 @@ META = {
              "arrival that had to be buffered and a gap; distinct by the "
              "whole case."
              ' Also: bytes / bytearray (overwritten by the caller right af'
-             'ter the call) / flat memoryview payloads.'),
+             'ter the call) / flat memoryview payloads.'
+             " Round 12: in two-scale histories the info is revised through the live accessor before the second scale is written; the second scale is read back by a fresh accessor and the specification-only reader."),
     "exhaustive_parts": ["perm_exhaustive: all subsets of a 2x2x2 grid, all "
                          "permutations for <= 5 chunks, triples in a fixed "
                          "list (quick) / all of {0,1,2}^3 (thorough)"],
